@@ -732,27 +732,27 @@ impl JoinOperator {
                     let mut left = false;
                     let mut right = false;
                     if let Expr::Column(c) = &f.arguments()[0] {
-                        if fields_with_unique_or_primary_key_constraint
-                            .get_key_value(c)
-                            .unwrap()
-                            .0[0]
-                            == Join::left_name()
+                        // A column that is in neither input says nothing about uniqueness
+                        if let Some((path, unique)) =
+                            fields_with_unique_or_primary_key_constraint.get_key_value(c)
                         {
-                            left = fields_with_unique_or_primary_key_constraint[c.as_slice()]
-                        } else {
-                            right = fields_with_unique_or_primary_key_constraint[c.as_slice()]
+                            if path[0] == Join::left_name() {
+                                left = *unique
+                            } else {
+                                right = *unique
+                            }
                         }
                     }
                     if let Expr::Column(c) = &f.arguments()[1] {
-                        if fields_with_unique_or_primary_key_constraint
-                            .get_key_value(c)
-                            .unwrap()
-                            .0[0]
-                            == Join::left_name()
+                        // A column that is in neither input says nothing about uniqueness
+                        if let Some((path, unique)) =
+                            fields_with_unique_or_primary_key_constraint.get_key_value(c)
                         {
-                            left = fields_with_unique_or_primary_key_constraint[c.as_slice()]
-                        } else {
-                            right = fields_with_unique_or_primary_key_constraint[c.as_slice()]
+                            if path[0] == Join::left_name() {
+                                left = *unique
+                            } else {
+                                right = *unique
+                            }
                         }
                     }
                     (left, right)
